@@ -67,7 +67,8 @@ def _exact_crow_km(lat1: float, lon1: float, lat2: float, lon2: float) -> float:
     return 2 * 6371 * asin(sqrt(d))
 
 
-def gen_graph(rng: random.Random) -> nx.MultiDiGraph:
+def gen_graph(rng: random.Random, realistic: bool = False) -> nx.MultiDiGraph:
+    """`realistic`: every link at least as long as the straight line between its ends"""
     if rng.random() < 0.15:
         return ladder_graph(rng)
     g = nx.MultiDiGraph()
@@ -76,7 +77,7 @@ def gen_graph(rng: random.Random) -> nx.MultiDiGraph:
     spread = rng.choice([0.004, 0.01, 0.03])
     for i in range(n):
         g.add_node(i, y=lat0 + rng.uniform(-spread, spread), x=lon0 + rng.uniform(-spread, spread))
-    arbitrary = rng.random() < 0.3
+    arbitrary = rng.random() < 0.3 and not realistic
     speeds = rng.choice([[30.0], [5.0, 130.0], [5.0, 10.0, 30.0, 60.0, 130.0], [25.0, 40.0, 55.0]])
 
     def add(i: int, j: int):
